@@ -416,10 +416,13 @@ func perturb(e *env, n int, seed int64) []string {
 			log = append(log, "flush "+c)
 		case 4:
 			base := []string{"GLX-INGRESS", "GLX-EGRESS"}[rng.Intn(2)]
-			rules := chains[base]
+			rules := append([]fakes.Rule(nil), chains[base]...)
 			if len(rules) == 0 {
 				continue
 			}
+			// the order of the hooks depends on goroutine scheduling in syncPods: pick by content, so that a replay of the
+			// case perturbs the same hook
+			sort.Slice(rules, func(i, j int) bool { return rules[i].String() < rules[j].String() })
 			r := rules[rng.Intn(len(rules))]
 			_ = e.ipt.DeleteRule(utiliptables.TableFilter, utiliptables.Chain(base), r.Tokens...)
 			log = append(log, "delete hook "+r.String()+" from "+base)
